@@ -27,6 +27,7 @@ def _bchdec(h, s):
 IMPL["segwitdec"] = _segwitdec
 IMPL["bchdec"] = _bchdec
 IMPL["segwitenc"] = lambda h, v, d: tx(SegwitBech32Encoder.Encode(untx(h), int(v), unhx(d)))
+IMPL["byrondec"] = lambda a: hx(__import__("bip_utils").AdaByronAddrDecoder.DecodeAddr(untx(a)))
 IMPL["bchenc"] = lambda h, v, d: tx(BchBech32Encoder.Encode(untx(h), unhx(v), unhx(d)))
 
 B58 = "123456789ABCDEFGHJKLMNPQRSTUVWXYZabcdefghijkmnopqrstuvwxyz"
@@ -138,6 +139,64 @@ def _groups5(b):
     return out
 
 
+def byron_cases(rng, tier):
+    """Cardano Byron addresses (Icarus and legacy): valid ones, the neighbourhood mutation stream, and CBOR-level re-spellings of the checksum
+    field — CRC + k·2^32 as a 64-bit unsigned, CRC − 2^32 as a negative integer (same text length as the valid address), the CRC in a
+    wider-than-needed unsigned — all with everything else intact"""
+    import zlib
+    from bip_utils import CardanoByronLegacy, AdaByronIcarusAddrEncoder, Base58Decoder
+    for i in range(2 if tier == "quick" else 20):
+        seed = bytes(rng.randrange(256) for _ in range(32))
+        w = CardanoByronLegacy.FromSeed(seed)
+        pub = w.GetPublicKey(0, i)
+        addrs = [w.GetAddress(0, i), AdaByronIcarusAddrEncoder.EncodeKey(pub.KeyObject(), chain_code=pub.ChainCode().ToBytes())]
+        for a in addrs:
+            yield Case("byrondec", [tx(a)], "valid-byron")
+            for m, kind in mutations(rng, a, B58, 25 if tier == "quick" else 300):
+                yield Case("byrondec", [tx(m)], "neg-" + kind)
+            raw = Base58Decoder.Decode(a)
+            # the address is array(2)[ tag24(bytes payload), uint crc ]: find the payload to recompute where the CRC item starts
+            for cut in range(len(raw) - 1, len(raw) - 10, -1):
+                head = raw[cut]
+                if head in (0x1a, 0x19, 0x18) and len(raw) - cut - 1 == {0x1a: 4, 0x19: 2, 0x18: 1}[head]:
+                    crc = int.from_bytes(raw[cut + 1:], "big")
+                    body = raw[:cut]
+                    variants = [("neg-crc-plus-2^32", b"\x1b" + (crc + 2**32).to_bytes(8, "big")), ("neg-crc-plus-5*2^32", b"\x1b" + (crc + 5 * 2**32).to_bytes(8, "big")),
+                                ("neg-crc-minus-2^32", b"\x3a" + (2**32 - crc - 1).to_bytes(4, "big")), ("neg-crc-negated", b"\x3a" + ((crc - 1) % 2**32).to_bytes(4, "big")),
+                                ("neg-crc-off-by-one", b"\x1a" + ((crc + 1) % 2**32).to_bytes(4, "big"))]
+                    for cls_, item in variants:
+                        yield Case("byrondec", [tx(Base58Encoder.Encode(body + item))], cls_)
+                    break
+
+
+def caseless_strings(rng, tier):
+    """valid Bech32 / Bech32m strings that contain no letter at all (HRP of digits or symbols, data and checksum spelled with the nine digit
+    symbols of the charset): neither lower nor upper case, hence not mixed case — legal under BIP-173, found by searching digit-only data
+    parts whose checksum (published polymod) is digit-only too"""
+    digits = [i for i, ch in enumerate(B32C) if ch.isdigit()]
+    want = 2 if tier == "quick" else 8
+    for hrp in ("2", "42", "1", "+", "2-3"):
+        found = 0
+        for _ in range(60000):
+            d = [rng.choice(digits) for _ in range(8)]        # 40 bits = 5 bytes, no padding
+            s = _bech32_string(hrp, d)
+            if not any(ch.isalpha() for ch in s):
+                yield Case("bech32dec", [tx(hrp), tx(s)], "valid-caseless")
+                found += 1
+                if found == want:
+                    break
+        found = 0
+        for _ in range(60000):
+            ver = rng.choice([v for v in range(1, 17) if B32C[v].isdigit()])
+            d = [ver] + [rng.choice(digits) for _ in range(16)]   # 80 bits = 10-byte program
+            s = _bech32_string(hrp, d, 0x2bc830a3)
+            if not any(ch.isalpha() for ch in s):
+                yield Case("segwitdec", [tx(hrp), tx(s)], "valid-caseless")
+                found += 1
+                if found == want:
+                    break
+
+
 def regrouped_spellings(rng, tier):
     """non-canonical 5-bit spellings of a byte payload with a VALID checksum: a whole extra all-zero group, two extra groups, non-zero
     padding bits, a dropped last group — only the canonical regrouping may be accepted"""
@@ -167,8 +226,17 @@ def regrouped_spellings(rng, tier):
                 yield Case("bchdec", [tx("bitcoincash"), tx(_cashaddr_string("bitcoincash", d))], "valid-regroup" if kind == "canonical" else "neg-regroup-" + kind)
 
 
+ORACLE_MISS_OPS = ("byrondec",)     # the Byron model covers the canonical CBOR shapes; outside them only the error family is checked
+
+
+def equiv(case, impl_reply, model_reply):
+    return case.op == "byrondec" and model_reply.startswith("err OracleMiss") and (impl_reply.startswith("ok") or impl_reply == "err Value")
+
+
 def gen(rng, tier):
     yield from regrouped_spellings(rng, tier)
+    yield from caseless_strings(rng, tier)
+    yield from byron_cases(rng, tier)
     T = fmt_table()
     n_addr = 2 if tier == "quick" else 12
     n_mut = 40 if tier == "quick" else 500
